@@ -8,6 +8,7 @@ CONSTANTS
   MaxVariants = 2
   MaxFields = 3
   MaxLawFields = 2
+  Narrow = FALSE
   Vals = {0, 1}
 INVARIANTS ImplMeetsDecl ImplMeetsProp IgnoredIrrelevant Laws
 CHECK_DEADLOCK FALSE
